@@ -95,6 +95,9 @@ func (c *c04vConn) Write(p []byte) (int, error) {
 
 func (c *c04vConn) handle(id string) {
 	c.s.seen[c.k] = append(c.s.seen[c.k], id)
+	if len(c.s.seen[c.k]) > 1 {
+		mcrt.Covered("conn-reused")
+	}
 	if c.dead {
 		return
 	}
